@@ -188,6 +188,35 @@ def compare_batch(ctx, batch, remap_tables):
                 ctx.disagree('corr:c02.assign', dict(where, atoms=bad), [impl[i] for i in bad], [model[i] for i in bad])
 
 
+def object_forms(ctx, libs_, smi, calls=None):
+    """the same molecule given as an RDKit object — with implicit hydrogens, and with its hydrogens already explicit (nothing
+    left for AddHs to add) — to every scheme in turn and twice each: the descriptors must be those of the SMILES text on every
+    call (the declared decomposition is a function of the molecule, not of what was decomposed before with that object)"""
+    from rdkit import Chem
+    try:
+        forms = {'mol': Chem.MolFromSmiles(smi), 'mol-explicit-H': Chem.AddHs(Chem.MolFromSmiles(smi))}
+    except Exception:
+        return
+    if forms['mol'] is None:
+        return
+    calls = calls or [name for name, _ in libs_] * 2
+    d = dict(libs_)
+    for form, obj in forms.items():
+        done = []
+        for name in calls:
+            lib = d[name]
+            ref = S.impl_descriptors(lib, smi)
+            got = S.impl_descriptors(lib, obj)
+            done.append(name)
+            ctx.count('object_form_calls')
+            ctx.case(None, None)
+            if got.get('err', '').startswith('internal') or ('ok' in got) != ('ok' in ref) or \
+                    ('ok' in ref and not S.same_counts(got['ok'], ref['ok'])):
+                ctx.violation('a molecule object does not give the descriptors of its SMILES text (call %d on the same object)' % len(done),
+                              {'scheme': name, 'smiles': smi, 'form': form, 'calls': list(done)}, ref, got)
+                return
+
+
 def run(ctx):
     libs_ = S.load_schemes()
     batch = []
@@ -218,6 +247,11 @@ def run(ctx):
             compare_batch(ctx, batch, None)
             batch = []
         full.run()
+    for kind in ('gas', 'surface'):
+        same = [(n, l) for n, l in libs_ if kind_of(n) == kind]
+        if same:
+            for smi in molecules(ctx, kind, ctx.n(12, 60))[:ctx.n(12, 60)]:
+                object_forms(ctx, same, smi)
     compare_batch(ctx, batch, None)
     full.run()
     ctx.extra.setdefault('coverage', {})['full_tie'] = (
@@ -231,6 +265,9 @@ def replay(ctx, rec):
     libs_ = dict(S.load_schemes())
     name = inp['scheme'].split('~')[0]
     batch = []
+    if 'form' in inp:
+        object_forms(ctx, list(libs_.items()), inp['smiles'], inp['calls'])
+        return len(ctx.violations) == before
     lib = probe_scheme(libs_[name]) if inp['scheme'].endswith('~probe') else libs_[name]
     check_one(ctx, inp['scheme'], lib, inp['smiles'], batch)
     if 'other_smiles' in inp:
